@@ -679,6 +679,14 @@ class PTA:
                         self.bind_call(setter, o, [v], {}, st)
                         via_setter.add(o)
                         continue
+                    # descriptor protocol: a class attribute whose object defines __set__ receives the store
+                    descs = [d for d in self._class_attr_objs(o.cls, fld) if d.kind in ('inst', 'ext_inst')
+                             and d.cls is not None and d.cls.lookup('__set__') is not None]
+                    if descs:
+                        for d in descs:
+                            self.bind_call(d.cls.lookup('__set__'), d, [{o}, v], {}, st)
+                        via_setter.add(o)
+                        continue
                 if o.kind == 'module':
                     m = o.extra[1]
                     self.add(('G', m.name, target.attr), v)
@@ -952,6 +960,12 @@ class PTA:
             out |= self.attr_of(o, e.attr, fld, e, callpos)
         return out
 
+    def _class_attr_objs(self, c: ClassInfo, fld: str) -> Set[Obj]:
+        out: Set[Obj] = set()
+        for cc in c.mro():
+            out |= self.get(('F', self.cls_obj(cc), fld))
+        return out
+
     def attr_of(self, o: Obj, attr: str, fld: str, node: ast.AST, callpos: bool = False) -> Set[Obj]:
         if o.kind == 'module':
             m = o.extra[1]
@@ -980,6 +994,16 @@ class PTA:
                 if m.is_static:
                     return {self.func_obj(m)}
                 return {self.bm_obj(m, o)}
+            # descriptor protocol: a class attribute whose object defines __get__ answers the load
+            descs = [d for d in self._class_attr_objs(o.cls, fld) if d.kind in ('inst', 'ext_inst')
+                     and d.cls is not None and d.cls.lookup('__get__') is not None]
+            if descs:
+                out = set()
+                for d in descs:
+                    g = d.cls.lookup('__get__')
+                    self.bind_call(g, d, [{o}, {self.cls_obj(o.cls)}], {}, node)
+                    out |= set(self.get(('R', self._fq(g))))
+                return out
             return self.read_field(o, fld)
         if o.kind in ('param', 'field'):
             if not callpos:
